@@ -3,7 +3,7 @@
 # checks need and warms the Go build cache by compiling the harness against /repo.
 set -e
 export GOFLAGS=-mod=mod GOPROXY=off GOSUMDB=off GOTOOLCHAIN=local
-for t in tlc java go rsync python3; do command -v $t >/dev/null || { echo "missing tool: $t"; exit 1; }; done
+for t in tlc java go rsync python3 apalache-mc; do command -v $t >/dev/null || { echo "missing tool: $t"; exit 1; }; done
 S=$(mktemp -d /tmp/verif_setup_XXXXXX); trap 'rm -rf "$S"' EXIT
 rsync -a --exclude .git /repo/ "$S/golib/"; rsync -a /verif/harness/ "$S/harness/"
 for d in /verif/harness/overlay/*/; do p=$(basename "$d"); [ -d "$S/golib/$p" ] && cp "$d"*.go "$S/golib/$p/"; done
